@@ -612,7 +612,8 @@ Fixpoint c03_fixpoint (c : cluster) (runs : list (scenario * outcome)) : bool :=
       let same := negb (o_destroy (sc_opts sc1)) && negb (o_destroy (sc_opts sc2))
                   && nl_eqb (map l_id (sc_local sc1)) (map l_id (sc_local sc2))
                   && list_eqb (fun a b => Nat.eqb (l_ver a) (l_ver b) && Bool.eqb (l_keep a) (l_keep b) && nl_eqb (l_deps a) (l_deps b)
-                                          && Bool.eqb (l_baddep a) (l_baddep b) && Bool.eqb (l_finv a) (l_finv b))
+                                          && Bool.eqb (l_baddep a) (l_baddep b) && Bool.eqb (l_finv a) (l_finv b)
+                                          && Bool.eqb (l_mut a) (l_mut b))
                               (sc_local sc1) (sc_local sc2)
                   (* a second run that prunes what the first one was told to leave is not "the same apply" *)
                   && (negb (o_prune (sc_opts sc2)) || o_prune (sc_opts sc1))
@@ -722,18 +723,6 @@ Definition mon_all_ext (sc : scenario) (c0 : cluster) (out : outcome) : list boo
    whose CRD failed to apply ends in ApplyFailed(unknown type) before any filter runs).
    The property monitors that only read the trace are evaluated on the implementation's
    own trace; agreement with the model is not claimed for these cases. *)
-Fixpoint mon_runs (mon : scenario -> cluster -> outcome -> bool) (c : cluster)
-         (runs : list (scenario * outcome)) : bool :=
-  match runs with
-  | [] => true
-  | (sc, obs) :: rest => mon sc c obs && mon_runs mon (out_final obs) rest
-  end.
-(* dry-run histories whose dependencies are spelled as apply-time mutations: the source of a
-   substitution may not exist (nothing was created), the mutator fails and the object is
-   reported failed without a request; the model has no such path, mon_C10 reads the
-   scenario options, the initial and final cluster and the trace only *)
-Definition check_C10_monly (h : history) : nat :=
-  let '(c0, runs) := h in code true (mon_runs mon_C10 c0 runs).
 Definition check_C13_monly (h : history) : nat :=
   let '(c0, runs) := h in
   code true (forallb (fun x => mon_C13_core (out_trace (snd x)) && mon_C06p (fst x) c0 (snd x)) runs).
